@@ -281,7 +281,8 @@ static void applyArgSettings(const vj::Value& cfg, const vj::Value& a, TypedArgB
    if (a["hidden"].boolean()) t->setIsHidden();
    if (a["depr"].boolean()) t->setIsDeprecated();
    if (a["repl"].size() > 0) t->setReplacedBy(a["repl"].bytes());
-   if (a["printdef"].kind == vj::Value::Bool) t->setPrintDefault(a["printdef"].boolean());
+   if (a["printdef"].str() == "yes") t->setPrintDefault(true);
+   else if (a["printdef"].str() == "no") t->setPrintDefault(false);
    const int style = static_cast<int>(a["cspell"].num());
    if (a["req"].size() > 0) t->addConstraint(requiresArg(keyList(cfg, a["req"], style)));
    if (a["exc"].size() > 0) t->addConstraint(excludes(keyList(cfg, a["exc"], style)));
@@ -498,6 +499,98 @@ static void doDefine(const vj::Value& cfg, const vj::Value& act) {
    vj::Line().str("e", "Define").str("mode", act["mode"].str()).raw("res", r).emit();
 }
 
+// C18: usage listing.  The usage text is projected onto (caption, key text, description token, markers)
+// per entry; every description is "D<i> ..." so that the argument an entry belongs to is recognisable.
+static void doUsage(const vj::Value& cfg, const vj::Value& act) {
+   std::string outcome = "ok";
+   std::string text;
+   try {
+      auto b = build(cfg, false, Handler::hfUsageCont);
+      if (b->setupFailed) outcome = "setup";
+      else {
+         if (act["via"].str() == "help") {
+            // through the help argument (cfg.help adds -h/--help); optional switches first
+            std::vector<std::string> words = wordsOf(act["argv"]);
+            Argv av("prog", words);
+            b->single->evalArguments(av.argc, av.arr.get());
+            text = b->out.str();
+         } else {
+            std::ostringstream oss;
+            oss << *b->single;
+            text = oss.str();
+         }
+      }
+   } catch (const std::exception& e) { outcome = "err"; text = e.what(); }
+   // parse
+   std::string entries = "[";
+   int nentries = 0, stray = 0;
+   std::istringstream is(text);
+   std::string ln, cap = "none";
+   struct Entry { std::string cap, key, block; };
+   std::vector<Entry> es;
+   while (std::getline(is, ln)) {
+      if (ln.rfind("Mandatory arguments:", 0) == 0) { cap = "m"; continue; }
+      if (ln.rfind("Optional arguments:", 0) == 0) { cap = "o"; continue; }
+      if (ln.size() > 3 && ln.compare(0, 3, "   ") == 0 && ln[3] == '-') {
+         size_t e = ln.find(' ', 3);
+         Entry en; en.cap = cap; en.key = ln.substr(3, e == std::string::npos ? std::string::npos : e - 3);
+         en.block = e == std::string::npos ? "" : ln.substr(e);
+         es.push_back(en);
+         continue;
+      }
+      if (!es.empty()) es.back().block += "\n" + ln;
+      else if (ln.find(" D") != std::string::npos || ln.rfind("D", 0) == 0) ++stray;
+   }
+   auto has = [](const std::string& b, const char* m) { return b.find(m) != std::string::npos; };
+   for (auto& en : es) {
+      // tokens D<digits> as whole words
+      std::vector<int> toks;
+      for (size_t p = 0; p < en.block.size(); ++p) {
+         if (en.block[p] == 'D' && (p == 0 || en.block[p - 1] == ' ' || en.block[p - 1] == '\n') && p + 1 < en.block.size() && isdigit(static_cast<unsigned char>(en.block[p + 1]))) {
+            size_t q = p + 1; int v = 0;
+            while (q < en.block.size() && isdigit(static_cast<unsigned char>(en.block[q]))) v = v * 10 + (en.block[q++] - '0');
+            if (q == en.block.size() || en.block[q] == ' ' || en.block[q] == '\n') toks.push_back(v);
+         }
+      }
+      if (nentries++) entries += ',';
+      entries += "{\"cap\":\"" + en.cap + "\",\"key\":" + codes(en.key) + ",\"toks\":" + intList(toks.begin(), toks.end())
+         + ",\"dflt\":" + (has(en.block, "Default value:") ? "true" : "false")
+         + ",\"check\":" + (has(en.block, "Check:") ? "true" : "false")
+         + ",\"cons\":" + (has(en.block, "Constraint:") ? "true" : "false")
+         + ",\"hid\":" + (has(en.block, "[hidden]") ? "true" : "false")
+         + ",\"depr\":" + (has(en.block, "[deprecated]") ? "true" : "false")
+         + ",\"repl\":" + (has(en.block, "[replaced by") ? "true" : "false") + "}";
+   }
+   entries += "]";
+   vj::Line().str("e", "Usage").str("via", act["via"].str()).raw("argv", dump(act["argv"])).str("out", outcome)
+      .raw("entries", entries).num("stray", stray).emit();
+}
+
+// C18: help for a single argument (--help-arg=<key>)
+static void doHelpArg(const vj::Value& cfg, const vj::Value& act) {
+   std::string outcome = "ok";
+   std::string out, err;
+   try {
+      auto b = build(cfg, false, Handler::hfUsageCont | Handler::hfHelpArg);
+      if (b->setupFailed) outcome = "setup";
+      else {
+         std::vector<std::string> words{"--help-arg=" + act["key"].bytes()};
+         Argv av("prog", words);
+         b->single->evalArguments(av.argc, av.arr.get());
+         out = b->out.str(); err = b->err.str();
+      }
+   } catch (const std::exception& e) { outcome = "err"; err = e.what(); }
+   std::vector<int> toks;
+   for (size_t p = 0; p < out.size(); ++p)
+      if (out[p] == 'D' && (p == 0 || out[p - 1] == ' ' || out[p - 1] == '\n') && p + 1 < out.size() && isdigit(static_cast<unsigned char>(out[p + 1]))) {
+         size_t q = p + 1; int v = 0;
+         while (q < out.size() && isdigit(static_cast<unsigned char>(out[q]))) v = v * 10 + (out[q++] - '0');
+         toks.push_back(v);
+      }
+   vj::Line().str("e", "HelpArg").raw("key", dump(act["key"])).str("out", outcome).raw("toks", intList(toks.begin(), toks.end()))
+      .boolean("unknown", err.find("is unknown") != std::string::npos).emit();
+}
+
 static void doSplit(const vj::Value& act) {
    const std::string cmd = act["cmd"].bytes();
    const bool withProg = act["prog"].kind == vj::Value::Arr;
@@ -596,6 +689,8 @@ int main(int argc, char** argv) {
       if (name == "Eval") doEval(cfg, act, cfgJson);
       else if (name == "Define") doDefine(cfg, act);
       else if (name == "Split") doSplit(act);
+      else if (name == "Usage") doUsage(cfg, act);
+      else if (name == "HelpArg") doHelpArg(cfg, act);
    }
    fclose(f);
    std::string rm = "rm -rf '" + gScratch + "'";
